@@ -2,6 +2,7 @@ package mc
 
 import (
 	"fmt"
+	"regexp"
 	"strings"
 
 	"github.com/evolbioinfo/goalign/verifrt/vrt"
@@ -226,12 +227,38 @@ func SchedProbe(c *Ctx, sigPrefix, what string, bound int, payload any, body fun
 // SchedProbeJudged is SchedProbe with an oracle for the result of the default execution: judge returns ""
 // or what is wrong with it (reported as <sigPrefix>/concurrent/result-wrong).
 func SchedProbeJudged(c *Ctx, sigPrefix, what string, bound int, payload any, body func() any, same func(a, b any) bool, judge func(first any) string) {
+	schedProbe(c, sigPrefix, what, bound, payload, body, same, judge, false)
+}
+
+// SchedProbeExitOK is SchedProbeJudged for entry points whose goroutines report an explicit error by
+// printing it and ending the process (io.ExitWithMessage, turned into a panic of that goroutine by the
+// instrumentation): such an execution is not a misuse, its result is ExitResult.
+func SchedProbeExitOK(c *Ctx, sigPrefix, what string, bound int, payload any, body func() any, same func(a, b any) bool, judge func(first any) string) {
+	schedProbe(c, sigPrefix, what, bound, payload, body, same, judge, true)
+}
+
+// ExitResult is the result of an execution that ended in io.ExitWithMessage (see SchedProbeExitOK).
+const ExitResult = "explicit error: message and exit"
+
+var exitInGoroutine = regexp.MustCompile(`^panic in goroutine T\d+: \{\d+\} @io\.ExitWithMessage`)
+
+func schedProbe(c *Ctx, sigPrefix, what string, bound int, payload any, body func() any, same func(a, b any) bool, judge func(first any) string, exitOK bool) {
 	var first any
 	have := false
 	ex := &Explorer{Ctx: c, NoCount: true, Opts: vrt.Options{Sched: true, MaxSteps: 2000000}, Bound: map[string]int{"sched": bound}, Body: body}
 	ex.Check = func(x *Execution) {
 		c.Eval()
 		e := x.Exec
+		if exitOK && len(e.Errors) > 0 {
+			all := true
+			for _, m := range e.Errors {
+				all = all && exitInGoroutine.MatchString(m)
+			}
+			if all {
+				e.Errors, e.Deadlock, e.Blocked = nil, false, nil
+				x.Result, x.Panic = ExitResult, nil
+			}
+		}
 		bad := func(clause, desc string) {
 			c.Violation(sigPrefix+"/concurrent/"+clause, fmt.Sprintf("%s under schedule [%s]: %s", what, x.Choices(), desc), payload)
 			x.NoExpand = true
